@@ -53,7 +53,8 @@ func c03Retry(e *Env, s *Sched) {
 	w := s.Worker
 	none := s.val("NodeStatusNone")
 	var resets []ir.StoreEvent
-	for _, ev := range s.statusEvents(w) {
+	evs := s.events(s.WorkerFns)
+	for _, ev := range evs {
 		if k, ok := s.constOf(ev); ok && k == none && sameNode(ev.Root, s.WorkerNode) {
 			resets = append(resets, ev)
 		}
@@ -71,27 +72,41 @@ func c03Retry(e *Env, s *Sched) {
 		return ok && p.Suffix("RetryPolicy.Limit") && sameNode(p.Root, s.WorkerNode)
 	}
 	incs := []ir.StoreEvent{}
-	for _, ev := range e.C.FieldStores(w, "State.RetryCount") {
-		if sameNode(ev.Root, s.WorkerNode) {
-			incs = append(incs, ev)
+	for _, f := range sortedFns(s.WorkerFns) {
+		for _, ev := range e.C.FieldStores(f, "State.RetryCount") {
+			if len(ev.Via) > 0 && s.inWorker(ev.Via[0]) {
+				continue
+			}
+			if sameNode(ev.Root, s.WorkerNode) {
+				incs = append(incs, ev)
+			}
 		}
 	}
 	for _, ev := range resets {
-		lits := e.DCS(ev.Site)
+		base := e.DCS(ev.Site)
 		pos := e.InstrPos(ev.Site)
-		okNil := HasNilCmp(lits, func(v ssa.Value) bool {
-			p, ok := e.C.PathOf(v)
-			return ok && p.Suffix("Step.RetryPolicy") && sameNode(p.Root, s.WorkerNode)
-		}, true)
-		okLt := false
-		for _, l := range lits {
-			if l.Kind == "cmp" && l.Op == token.LSS && isCount(l.X) && isLimit(l.Y) {
-				okLt = true
+		okNil, okLt := true, true
+		// a guard extracted into a boolean helper (`canRetry(node)`) is expanded into its return conditions
+		for _, lits := range e.expandHelperCalls(base, 0) {
+			if !HasNilCmp(lits, func(v ssa.Value) bool {
+				p, ok := e.C.PathOf(v)
+				return ok && p.Suffix("Step.RetryPolicy") && sameNode(p.Root, s.WorkerNode)
+			}, true) {
+				okNil = false
+			}
+			lt := false
+			for _, l := range lits {
+				if l.Kind == "cmp" && l.Op == token.LSS && isCount(l.X) && isLimit(l.Y) {
+					lt = true
+				}
+			}
+			if !lt {
+				okLt = false
 			}
 		}
-		r.Check(okNil, "worker: retry reset under RetryPolicy != nil", pos, "the retry path dereferences / uses a RetryPolicy that was not tested non-nil", e.FactsStr("dominating conditions: ", lits))
+		r.Check(okNil, "worker: retry reset under RetryPolicy != nil", pos, "the retry path dereferences / uses a RetryPolicy that was not tested non-nil", e.FactsStr("dominating conditions: ", base))
 		r.Check(okLt, "worker: retry reset under retryCount < RetryPolicy.Limit", pos,
-			"the relaunch licence is not guarded by `retry count < limit` (off-by-one or missing bound: a step could be retried more than `limit` times)", e.FactsStr("dominating conditions: ", lits))
+			"the relaunch licence is not guarded by `retry count < limit` (off-by-one or missing bound: a step could be retried more than `limit` times)", e.FactsStr("dominating conditions: ", base))
 	}
 	r.Rule("C03.retry-count", "MPT", "exactly one RetryCount increment, before the reset, on the retry path", 1)
 	nInc := 0
@@ -103,7 +118,7 @@ func c03Retry(e *Env, s *Sched) {
 		nInc++
 		ok := false
 		for _, rs := range resets {
-			if ir.Precedes(ic.Site, rs.Site) && sameGuards(e, ic.Site, rs.Site) {
+			if ic.Site.Parent() == rs.Site.Parent() && ir.Precedes(ic.Site, rs.Site) && sameGuards(e, ic.Site, rs.Site) {
 				ok = true
 			}
 		}
@@ -114,22 +129,7 @@ func c03Retry(e *Env, s *Sched) {
 		sprintf("found %d increments of RetryCount in the worker; each relaunch must increase the count exactly once (ranking argument for ≤ limit retries)", nInc))
 
 	r.Rule("C03.no-status-after-handback", "MPT", "no status store reachable after the reset to None", 1)
-	evs := s.statusEvents(w)
-	doneNil := func(from *ssa.BasicBlock, idx int) bool {
-		// every shipped caller passes a non-nil `done` channel (C03.done-nonnil):
-		// edges taken only when done == nil are not followed
-		i, ok := from.Instrs[len(from.Instrs)-1].(*ssa.If)
-		if !ok {
-			return false
-		}
-		for _, a := range e.Facts(w).Alternatives(ir.Lit{Cond: i.Cond, Pol: idx == 0, If: i}) {
-			l := ir.Normalize(a)
-			if !(l.Kind == "cmp" && l.Op == token.EQL && ir.IsNilConst(l.Y) && isChanNamed(ir.Resolve(l.X), "done")) {
-				return false
-			}
-		}
-		return true
-	}
+	doneNil := func(from *ssa.BasicBlock, idx int) bool { return doneNilEdge(e, from, idx) }
 	backEdge := func(from *ssa.BasicBlock, idx int) bool { return from.Succs[idx].Dominates(from) }
 	isStatusStore := func(in ssa.Instruction) bool {
 		for _, ev := range evs {
@@ -139,14 +139,100 @@ func c03Retry(e *Env, s *Sched) {
 		}
 		return false
 	}
+	isExec := func(in ssa.Instruction) bool {
+		c, ok := in.(*ssa.Call)
+		return ok && c.Call.StaticCallee() != nil && !s.inWorker(c.Call.StaticCallee()) && e.ReachesRepo(c.Call.StaticCallee(), func(x *ssa.Function) bool { return x == s.Execute })
+	}
+	descend := func(g *ssa.Function) bool { return s.inWorker(g) }
+	// the way on from an instruction: the rest of its function and, when that is a
+	// helper of the worker, what follows the helper's call, up to the worker itself
+	onward := func(start ssa.Instruction, q ir.PathQuery) ssa.Instruction {
+		cur := start
+		for d := 0; d < 6; d++ {
+			if bad, _ := ir.Bypass(cur, nil, q); bad != nil {
+				return bad
+			}
+			f := cur.Parent()
+			if f == s.Worker || !s.inWorker(f) {
+				return nil
+			}
+			us := ir.UniqueSite(f)
+			if us == nil {
+				return nil
+			}
+			cur = us
+		}
+		return nil
+	}
+	// on the way out after a retry reset the execution error is non-nil (the retry
+	// path is only entered under it): an edge whose every alternative is `done == nil`
+	// or `<the exec error, possibly handed up through the worker's helpers> == nil` is not taken
+	execErrNil := func(l ir.NLit) bool {
+		if l.Kind != "cmp" || l.Op != token.EQL || !ir.IsNilConst(l.Y) || !ir.IsErrorType(l.X.Type()) {
+			return false
+		}
+		fl := &ir.Flow{C: e.C, Source: func(v ssa.Value) bool {
+			c, ok := v.(*ssa.Call)
+			return ok && c.Call.StaticCallee() != nil && !s.inWorker(c.Call.StaticCallee()) &&
+				e.ReachesRepo(c.Call.StaticCallee(), func(x *ssa.Function) bool { return x == s.Execute })
+		}, Through: func(c *ssa.Call) []int {
+			return nil
+		}}
+		// look through calls of worker helpers: their returned values
+		var derives func(v ssa.Value, d int) bool
+		derives = func(v ssa.Value, d int) bool {
+			if d > 4 {
+				return false
+			}
+			if fl.Any(v) {
+				return true
+			}
+			for _, leaf := range fl.Leaves {
+				c, ok := leaf.(*ssa.Call)
+				if !ok || c.Call.StaticCallee() == nil || !s.inWorker(c.Call.StaticCallee()) {
+					continue
+				}
+				for _, b := range c.Call.StaticCallee().Blocks {
+					for _, in := range b.Instrs {
+						if rt, ok := in.(*ssa.Return); ok && len(rt.Results) > 0 {
+							if derives(rt.Results[len(rt.Results)-1], d+1) {
+								return true
+							}
+						}
+					}
+				}
+			}
+			return false
+		}
+		return derives(l.X, 0)
+	}
+	infeasibleAfterRetry := func(from *ssa.BasicBlock, idx int) bool {
+		i, ok := from.Instrs[len(from.Instrs)-1].(*ssa.If)
+		if !ok {
+			return false
+		}
+		alts := e.Facts(from.Parent()).Alternatives(ir.Lit{Cond: i.Cond, Pol: idx == 0, If: i})
+		if len(alts) == 0 {
+			return false
+		}
+		for _, a := range alts {
+			l := ir.Normalize(a)
+			isDoneNil := l.Kind == "cmp" && l.Op == token.EQL && ir.IsNilConst(l.Y) && isChanNamed(ir.Resolve(l.X), "done")
+			if !isDoneNil && !execErrNil(l) {
+				return false
+			}
+		}
+		return true
+	}
 	for _, rs := range resets {
 		// (a) without re-entering the exec loop
 		known := e.DCS(rs.Site)
-		bad, _ := ir.Bypass(rs.Site, nil, ir.PathQuery{
+		bad := onward(rs.Site, ir.PathQuery{
 			SkipEdge: func(from *ssa.BasicBlock, idx int) bool {
-				return doneNil(from, idx) || backEdge(from, idx) || e.Contradicts(known, from, idx)
+				return doneNil(from, idx) || backEdge(from, idx) || e.Contradicts(known, from, idx) || (from.Parent() != rs.Site.Parent() && infeasibleAfterRetry(from, idx))
 			},
-			Bad: isStatusStore})
+			Descend: descend,
+			Bad:     isStatusStore})
 		var facts []string
 		if bad != nil {
 			facts = append(facts, "status store reachable at "+e.InstrPos(bad))
@@ -154,12 +240,7 @@ func c03Retry(e *Env, s *Sched) {
 		r.Check(bad == nil, "worker: after status:=None the way out of the worker stores no status", e.InstrPos(rs.Site),
 			"after handing the node back to the scheduling loop (status not-started) the old worker still writes its status on its way out: a relaunched attempt can be relabelled finished/failed by the previous attempt's goroutine", facts...)
 		// (b) the exec loop is not re-entered after the hand-back
-		bad2, _ := ir.Bypass(rs.Site, nil, ir.PathQuery{
-			SkipEdge: doneNil,
-			Bad: func(in ssa.Instruction) bool {
-				c, ok := in.(*ssa.Call)
-				return ok && c.Call.StaticCallee() != nil && e.ReachesRepo(c.Call.StaticCallee(), func(x *ssa.Function) bool { return x == s.Execute })
-			}})
+		bad2 := onward(rs.Site, ir.PathQuery{SkipEdge: doneNil, Descend: descend, Bad: isExec})
 		facts = nil
 		if bad2 != nil {
 			facts = append(facts, "exec call reachable at "+e.InstrPos(bad2))
@@ -189,15 +270,16 @@ func doneNilEdge(e *Env, from *ssa.BasicBlock, idx int) bool {
 	return true
 }
 
+// isChanNamed: v is the notification channel handed to the scheduling loop: a
+// parameter or captured variable of channel type (by role; the name is not used).
 func isChanNamed(v ssa.Value, name string) bool {
+	v = ir.Deep(v)
 	if _, ok := v.Type().Underlying().(*types.Chan); !ok {
 		return false
 	}
-	switch x := v.(type) {
-	case *ssa.Parameter:
-		return x.Name() == name
-	case *ssa.FreeVar:
-		return x.Name() == name
+	switch v.(type) {
+	case *ssa.Parameter, *ssa.FreeVar:
+		return true
 	}
 	return false
 }
@@ -242,11 +324,14 @@ func c03Writers(e *Env, s *Sched) {
 			continue
 		}
 		for _, ev := range e.C.FieldStores(f, "State.RetryCount") {
+			if len(ev.Via) > 0 && s.inWorker(f) && s.inWorker(ev.Via[0]) {
+				continue // examined in the helper
+			}
 			pos := e.InstrPos(ev.Site)
 			switch {
 			case ev.Init:
 				// construction of a fresh node from given state
-			case ev.Inc && f == s.Worker:
+			case ev.Inc && s.inWorker(f):
 				r.OK("worker: RetryCount++", pos, "the retry path's increment (see C03.retry-count)")
 			case ev.Zero || isZeroConst(ev.Val):
 				r.OK(ShortFn(f)+": whole-state reset of a node", pos, "RetryCount zeroed as part of a whole-state reset")
@@ -257,7 +342,10 @@ func c03Writers(e *Env, s *Sched) {
 	}
 	r.Rule("C03.none-writers", "WMW", "status:=None only by the retry path and the retry-graph reset", 2)
 	none := s.val("NodeStatusNone")
-	retrySetup := e.FnQuiet(schedRel, "(*ExecutionGraph).setupRetry")
+	// by role: the construction phase of the execution graph (functions that allocate it
+	// and functions only they call): nodes are reset there before any scheduler sees them
+	lr := &lockRule{e: e, facts: map[*ssa.Function]*ir.LockFacts{}, accs: map[*ssa.Function][]ir.FieldAccess{}, cphase: map[string]map[*ssa.Function]bool{}}
+	graphCP := lr.constructionPhase(lockOwner{typ: "internal/dag/scheduler.ExecutionGraph"})
 	for _, f := range e.RepoFuncsSorted() {
 		if rootFn(f).Package() != sp || isAccessor(f) {
 			continue
@@ -270,9 +358,12 @@ func c03Writers(e *Env, s *Sched) {
 			pos := e.InstrPos(ev.Site)
 			switch {
 			case ev.Init:
-			case f == s.Worker:
+			case s.inWorker(f):
+				if len(ev.Via) > 0 && s.inWorker(ev.Via[0]) {
+					continue
+				}
 				r.OK("worker: status:=None (retry path)", pos, "guarded by C03.retry-guard")
-			case f == retrySetup:
+			case graphCP[f]:
 				r.OK("retry-graph builder: whole-state reset", pos, "nodes selected for re-execution are reset before the run starts")
 			default:
 				r.Bad(ShortFn(f)+": writes status not-started", pos, "a node can be made launchable again outside the bounded retry path and the retry-graph reset (a step could run more than once)")
